@@ -188,6 +188,8 @@ def structured_specs(tier: str, seed: int, families=None, custom_info=True):
             if not T and len(divs) > 12:
                 idx = sorted(rng.choice(len(divs), size=12, replace=False).tolist())
                 divs = [divs[i] for i in idx]
+            if n == 15 and 7 not in divs:
+                divs = sorted(divs + [7])  # the witness of the recorded finding KF-C03-CYCLIC-DMIN-LARGE-K is explored at every seed
             for g in divs:
                 for info in _info_variants(n, n - RP.deg(g), rng, custom_info and (g % 3 == 0)):
                     specs.append({"family": "cyclic", "n": n, "g": g, "info": info})
